@@ -73,7 +73,15 @@ type Prop struct {
 // Registry of all properties (filled by package registration).
 var Registry = map[string]*Prop{}
 
-func Register(p *Prop) { Registry[p.ID] = p }
+func Register(p *Prop) {
+	// every history/structure run takes milliseconds: a worker that announces no
+	// new run for a minute hangs inside the library (reported as <prop>/fatal/hang
+	// after two fresh-process replays, like every worker death)
+	if p.HangSeconds == 0 && (p.Engine == "E1" || p.Engine == "E3") {
+		p.HangSeconds = 60
+	}
+	Registry[p.ID] = p
+}
 
 // Failure is one failing run reported by a worker.
 type Failure struct {
